@@ -300,6 +300,31 @@ def _ref_ok(ex, kind, term):
     return None
 
 
+def _instance(ex, pool, guard, kind, term, rng=None):
+    """quantifier-free instance of the typing axioms for a value just read (outside quantifier bodies only: there the
+    pool-level axioms apply)"""
+    if ex.quant:
+        return
+    facts = []
+    ok = _ref_ok(ex, kind, term)
+    if ok is not None:
+        facts.append(ok)
+    if rng is not None and kind == 'int':
+        facts.append(z3.And(term >= rng[0], term <= rng[1]))
+    if not facts:
+        return
+    done = ex.__dict__.setdefault('heap_instances', set())
+    key = (term.get_id(), guard.get_id())
+    if key in done:
+        return
+    done.add(key)
+    f = z3.Implies(guard, z3.And(*facts))
+    ex.keep.append(f)
+    ex.keep.append(term)
+    ex.keep.append(guard)
+    ex.add_def(f)
+
+
 def type_axioms(ex, pref):
     """the heap state just introduced (pre-state or havoc) is well typed: every stored reference points to an
     allocated object of the declared pool, IntRange fields are in range.  (States derived by stores keep this by
@@ -443,6 +468,8 @@ def pget(ex, o, name):
         v = elem_to_value(ex, term, kind)
     finally:
         _OLD[0] = None
+    if o.mref.old is None:
+        _instance(ex, pool, z3.And(idt >= 0, z3.Select(pool.dom, idt)), kind, term, pool.ranges.get(name))
     return v
 
 
@@ -707,6 +734,8 @@ def d_read(ex, o, k):
         v = elem_to_value(ex, term, pool.vkind)
     finally:
         _OLD[0] = None
+    if o.mref.old is None:
+        _instance(ex, pool, z3.And(idt >= 0, z3.Select(pool.dom, idt), z3.Select(dom, kt)), pool.vkind, term, pool.ranges.get('val'))
     return v
 
 
@@ -736,6 +765,8 @@ def _lazy_opt(ex, o, k):
     if not (isinstance(pool.vkind, tuple) and pool.vkind and pool.vkind[0] == 'pref'):
         return None
     kt = _key(ex, k)
+    if o.mref.old is None:
+        _instance(ex, pool, z3.And(idt >= 0, z3.Select(pool.dom, idt), z3.Select(dom, kt)), pool.vkind, z3.Select(val, kt))
     t = z3.If(z3.Select(dom, kt), z3.Select(val, kt), z3.IntVal(-1))
     return PRef(pool_ref(ex, pool.vkind[1], o.mref.old), mk_int(t), True)
 
@@ -1224,12 +1255,14 @@ def pool_same_except(new, old, refs):
     return True
 
 
-def _except_eq(ex, new_arr, old_arr, keys):
+def _except_eq(ex, new_arr, old_arr, keys, ids=False):
+    """the arrays agree outside `keys` (ids: the keys are object ids, where a negative one = None names no object)"""
     t = old_arr
     for kt in keys:
         u = z3.Store(t, kt, z3.Select(new_arr, kt))
-        c = z3.simplify(kt >= 0)
-        t = u if z3.is_true(c) else z3.If(kt >= 0, u, t)  # (a None reference names no object)
+        if ids and not z3.is_true(z3.simplify(kt >= 0)):
+            u = z3.If(kt >= 0, u, t)
+        t = u
     return new_arr == t
 
 
@@ -1249,7 +1282,7 @@ def q_pool_same_except(ex, args, kwargs):
         keys.append(zint(r.key))
     out = []
     for name in po.cols:
-        out.append(_except_eq(ex, pn.cols[name][0], po.cols[name][0], keys))
+        out.append(_except_eq(ex, pn.cols[name][0], po.cols[name][0], keys, ids=True))
     i = z3.Int(f'__s!{ex.fresh_name("m")}')
     out.append(_forall([i], z3.Implies(z3.Select(po.dom, i), z3.Select(pn.dom, i)), [z3.Select(po.dom, i)]))
     return mk_bool(z3.And(*out))
